@@ -33,8 +33,10 @@ JacRaw(g, P, z) ==
 AffRaw(g, P) == IF P = <<>> THEN <<RawF(g, FZeroG(g)), RawF(g, FOneG(g)), 1>> ELSE <<RawF(g, P[1]), RawF(g, P[2]), 0>>
 AffRawJunk(g, P) == <<RawF(g, EmbG(g, Rnd(5))), RawF(g, EmbG(g, Rnd(6))), 1>>  \* identity with arbitrary x, y
 
-ZReps(g) == IF Tier = "quick" THEN { FOneG(g), EmbG(g, Sub(Q, One)), EmbG(g, Rnd(11)) }
-            ELSE { FOneG(g), EmbG(g, Two), EmbG(g, Sub(Q, One)), EmbG(g, Rnd(11)), EmbG(g, Rnd(12)) }
+\* for G2 also z in the base field (2, -1: imaginary part zero) and z with real part one (1 + c u): "z = 1" tested on one coordinate only
+ZSub(g) == IF g = 1 THEN {} ELSE { <<Two, Zero>>, <<Sub(Q, One), Zero>>, <<One, Rnd(13)>> }
+ZReps(g) == IF Tier = "quick" THEN { FOneG(g), EmbG(g, Sub(Q, One)), EmbG(g, Rnd(11)) } \cup ZSub(g)
+            ELSE { FOneG(g), EmbG(g, Two), EmbG(g, Sub(Q, One)), EmbG(g, Rnd(11)), EmbG(g, Rnd(12)) } \cup ZSub(g)
 OReps(g) == { <<FZeroG(g), FOneG(g)>>, <<EmbG(g, Rnd(21)), EmbG(g, Rnd(22))>> }
 Reps(g, P) == IF P = <<>> THEN { JacRaw(g, P, xy) : xy \in OReps(g) } ELSE { JacRaw(g, P, z) : z \in ZReps(g) }
 AffReps(g, P) == IF P = <<>> THEN { AffRaw(g, P), AffRawJunk(g, P) } ELSE { AffRaw(g, P) }
